@@ -655,4 +655,106 @@ def run_template_output(tier="quick", seed=0):
     return res
 
 
-FAMILIES = {"cli_template_output": run_template_output, "cli_check_verdict": run_verdict, "cli_discipline": run, "cli_pipe": run_pipe, "cli_bumps": run_bumps}
+GIT_BOUND = ("a scripted `git` (canned, mutually consistent answers for the eleven git invocations zerv makes: one commit after tag v1.2.3 on branch main) with each "
+             "invocation in turn made to exit 128, to print nothing, or to print garbage, for `zerv version` and `zerv flow`: a failing or nonsensical answer must "
+             "give a non-zero status and nothing on stdout — never a different version with status 0")
+
+_FAKE_GIT = r'''#!/bin/sh
+HEAD=0123456789abcdef0123456789abcdef01234567
+BASE=89abcdef0123456789abcdef0123456789abcdef
+key=other; out=""
+case "$*" in
+  "--version") key=version; out="git version 2.39.0";;
+  "rev-parse HEAD") key=revparse; out=$HEAD;;
+  "log -1 --format=%ct") key=ct; out=1710511845;;
+  "status --porcelain") key=status; out="";;
+  "branch --show-current") key=branch; out=main;;
+  "rev-list --topo-order HEAD") key=topo; out="$HEAD
+$BASE";;
+  "log --tags --no-walk --format=%H") key=tagged; out=$BASE;;
+  "tag --points-at $BASE") key=tags; out=v1.2.3;;
+  "tag --points-at $HEAD") key=tagshead; out="";;
+  "rev-list --count v1.2.3..HEAD") key=count; out=1;;
+  "show -s --format=%ct v1.2.3^{commit}") key=tagts; out=1710000000;;
+  "rev-list -n 1 v1.2.3") key=taghash; out=$BASE;;
+  *) echo "fake git: unexpected invocation: $*" >&2; exit 64;;
+esac
+if [ "$FAIL_KEY" = "$key" ]; then
+  case "$FAIL_MODE" in
+    exit) echo "fatal: simulated failure" >&2; exit 128;;
+    empty) exit 0;;
+    garbage) printf '\\377\\376 not what you expected 99999999999999999999\\n'; exit 0;;
+  esac
+fi
+[ -n "$out" ] && printf '%s\\n' "$out"
+exit 0
+'''
+
+
+def run_git_failures(tier="quick", seed=0):
+    """C13: "including any single git sub-command failing" — each git invocation sabotaged in turn, all others sane."""
+    t0 = time.time()
+    res = {"family": "cli_git_failures", "bound": GIT_BOUND, "cases": 0}
+    ok, msg = rengine.build_zerv()
+    if not ok:
+        res.update(status="error", lines=["the zerv binary does not build from the working tree: " + msg[-400:]])
+        return res
+    zerv = rengine.ZERV
+    work = tempfile.mkdtemp(prefix="verif_git_")
+    classes = {}
+
+    def bad(cls, text):
+        classes.setdefault(cls, []).append(f"CEX cli_git_failures class={cls} {text}")
+
+    try:
+        bindir = os.path.join(work, "bin")
+        repo = os.path.join(work, "repo")
+        os.makedirs(bindir)
+        os.makedirs(os.path.join(repo, ".git"))
+        with open(os.path.join(bindir, "git"), "w") as fh:
+            fh.write(_FAKE_GIT.replace("\\\\", "\\"))
+        os.chmod(os.path.join(bindir, "git"), 0o755)
+        env0 = {k: v for k, v in os.environ.items() if not k.startswith("RUST_LOG") and not k.startswith("ZERV_")}
+        env0.update(HOME=work, NO_COLOR="1", PATH=bindir + ":/usr/bin:/bin")
+        base = {}
+        for sub in ("version", "flow"):
+            rc, out, err = _run(zerv, [sub, "-C", repo], None, work, env0)
+            res["cases"] += 1
+            base[sub] = out
+            if rc != 0 or not out.strip():
+                bad("harness", f"the scripted git does not give a baseline for `zerv {sub}`: status {rc}, {err.decode('utf-8', 'replace')[-200:]!r}")
+        if classes:
+            # the scripted git no longer matches the invocations zerv makes: nothing can be concluded (undecided, not an alarm)
+            res.update(status="error", lines=["scripted git out of date: " + classes["harness"][0][:300]])
+            return res
+        if not classes:
+            keys = ["revparse", "ct", "status", "branch", "topo", "tagged", "tags", "count", "tagts", "taghash"]
+            for key in keys:
+                for mode in ("exit", "empty", "garbage"):
+                    for sub in ("version", "flow"):
+                        res["cases"] += 1
+                        rc, out, err = _run(zerv, [sub, "-C", repo], None, work, dict(env0, FAIL_KEY=key, FAIL_MODE=mode))
+                        if rc is None or rc < 0 or rc == 101 or b"panicked at" in err:
+                            bad("panic", f"`zerv {sub}` with git `{key}` in mode {mode}: panicked / killed (status {rc})")
+                        elif rc == 0 and out != base[sub] and mode == "exit":
+                            bad("git-failure-swallowed", f"`zerv {sub}` with the git invocation `{key}` exiting 128: status 0, prints {out.decode('utf-8', 'replace').strip()!r} "
+                                                         f"(all invocations sane: {base[sub].decode('utf-8', 'replace').strip()!r}); a failing git sub-command is to give a non-zero status and nothing on stdout")
+                        elif rc == 0 and mode == "exit" and key not in ("status",):
+                            bad("git-failure-swallowed", f"`zerv {sub}` with the git invocation `{key}` exiting 128: status 0, prints the baseline {out.decode('utf-8', 'replace').strip()!r} as if nothing had failed")
+                        elif rc == 0 and mode in ("empty", "garbage") and out != base[sub] and key not in ("status", "branch", "tags", "tagged", "topo"):
+                            bad("git-garbage-accepted", f"`zerv {sub}` with the git invocation `{key}` answering {'nothing' if mode == 'empty' else 'garbage'} (status 0): zerv prints "
+                                                        f"{out.decode('utf-8', 'replace').strip()!r} with status 0 (sane answers: {base[sub].decode('utf-8', 'replace').strip()!r})")
+                        elif rc != 0 and out:
+                            bad("stdout-on-failure", f"`zerv {sub}` with git `{key}` in mode {mode}: status {rc} but stdout {out[:100]!r}")
+    finally:
+        shutil.rmtree(work, ignore_errors=True)
+    res["wall_s"] = round(time.time() - t0, 2)
+    if classes:
+        lines = [l for v in classes.values() for l in v]
+        res.update(status="cex", lines=lines[:5], classes={k: v[:5] for k, v in classes.items()})
+    else:
+        res.update(status="no-cex", lines=[])
+    return res
+
+
+FAMILIES = {"cli_git_failures": run_git_failures, "cli_template_output": run_template_output, "cli_check_verdict": run_verdict, "cli_discipline": run, "cli_pipe": run_pipe, "cli_bumps": run_bumps}
